@@ -209,6 +209,24 @@ func IteI(c bool, a, b int) int {
 	}
 	return b
 }
+func IteU8(c bool, a, b uint8) uint8 {
+	if c {
+		return a
+	}
+	return b
+}
+func IteI8(c bool, a, b int8) int8 {
+	if c {
+		return a
+	}
+	return b
+}
+func IteB(c bool, a, b bool) bool {
+	if c {
+		return a
+	}
+	return b
+}
 
 // Param returns a concrete bound configured per harness instance.
 func Param(name string) int {
